@@ -578,10 +578,29 @@ Proof.
   destruct (Judge.C02.dec_dt [y; o; s; f]) as [[[dn s1] f1]|] eqn:Ed; [|congruence].
   destruct (dec_dt_inv _ _ Ed) as (y' & o' & s' & f' & [= -> -> -> ->]).
   destruct (dec_dt_model y' o' s' f' _ Ed) as (Ex & Hv & Hs & Hf & Hdec & Henc). injection Ex as -> -> ->.
-  destruct (Judge.C02.off_ok off && (f' <? Judge.C02.G)) eqn:E; [|congruence]. intros _.
-  apply andb_prop in E. destruct E as [Eo El].
+  destruct (Judge.C02.off_ok off) eqn:Eo; [|congruence].
   unfold dec_dtz. rewrite Hdec, (east_opt_ok off Eo). set (a := ndt_of y' o' s' f') in *.
   destruct (systime_from_dt_spec DF (mk_dtz a off) Hv) as (s & n & Hsys & Hn & Hi). rewrite Hsys. cbn [val_of_R dz_utc] in *.
+  destruct (f' <? Judge.C02.G) eqn:El.
+  2:{ (* leap-second operand: the model's instant is the start of the second plus the nanosecond field *)
+    intros _. assert (Hfr : 0 <= f' < 2 * G) by (destruct Hv as [_ [_ H]]; rewrite Hf in H; exact H).
+    assert (Ht : s * G + n = unix_nanos (date_dn (C08Sweeps.mkdate y' o')) s' 0 + f')
+      by (rewrite Hi; unfold instant, unix_nanos; rewrite Hs, Hf; change (nd_date a) with (C08Sweeps.mkdate y' o'); lia).
+    set (t0 := unix_nanos (date_dn (C08Sweeps.mkdate y' o')) s' 0) in *. clearbody t0.
+    unfold enc_sys, st_since_epoch, Judge.C02.G in *. unfold G in *.
+    destruct (0 <=? s) eqn:E0.
+    - cbn [val_of_bool]. change (0 =? 0) with true. change (0 =? 1) with false. cbn [orb andb].
+      replace ((0 <=? s) && (0 <=? n) && (n <? 1000000000)) with true by lia.
+      replace ((t0 + 1000000000 - 1 <=? 1 * (s * 1000000000 + n)) && (1 * (s * 1000000000 + n) <? t0 + 2 * 1000000000)) with true by lia.
+      reflexivity.
+    - destruct (n =? 0) eqn:E1; cbn [val_of_bool]; change (1 =? 0) with false; change (1 =? 1) with true; cbn [orb andb].
+      + replace ((0 <=? - s) && (0 <=? 0) && (0 <? 1000000000)) with true by lia.
+        replace ((t0 + 1000000000 - 1 <=? -1 * (- s * 1000000000 + 0)) && (-1 * (- s * 1000000000 + 0) <? t0 + 2 * 1000000000)) with true by lia.
+        reflexivity.
+      + replace ((0 <=? - s - 1) && (0 <=? 1000000000 - n) && (1000000000 - n <? 1000000000)) with true by lia.
+        replace ((t0 + 1000000000 - 1 <=? -1 * ((- s - 1) * 1000000000 + (1000000000 - n))) && (-1 * ((- s - 1) * 1000000000 + (1000000000 - n)) <? t0 + 2 * 1000000000)) with true by lia.
+        reflexivity. }
+  intros _.
   change (unix_nanos (date_dn (C08Sweeps.mkdate y' o')) s' f') with (instant a). rewrite <- Hi.
   unfold enc_sys, st_since_epoch, Judge.C02.G. unfold G in *.
   destruct (0 <=? s) eqn:E0.
